@@ -180,3 +180,135 @@ def renamed(f, mapping):
         pass
     f.module._nested(g, new) if False else None
     return g
+
+
+def http_roles(f):
+    """{actual local: role} for a method of circuits/web/http.py: req / res (Request / Response objects and whatever is unpacked next to them),
+    sock (`<req>.sock`), parser (`self._buffers[...]`), fevent (`kwargs['fevent']`), headers (`<res>.headers`)."""
+    import ast as _a
+    from sa.model import src, walk_no_defs
+    m = {}
+    params = set(f.params)
+
+    def put(name, role):
+        if name not in params and name not in m:
+            m[name] = role
+            return True
+        return False
+    role_of = lambda name: m.get(name, name if name in ('req', 'res', 'sock') and name in params else None)
+    for _ in range(4):
+        changed = False
+        for n in walk_no_defs(f.node):
+            if not isinstance(n, _a.Assign):
+                continue
+            names = [t for t in n.targets if isinstance(t, _a.Name)]
+            v = n.value
+            vs = src(v)
+            for t in names:
+                if isinstance(v, _a.Call) and src(v.func).split('.')[-1] == 'Request':
+                    changed |= put(t.id, 'req')
+                elif isinstance(v, _a.Call) and src(v.func).split('.')[-1] == 'Response':
+                    changed |= put(t.id, 'res')
+                elif isinstance(v, _a.Attribute) and isinstance(v.value, _a.Name) and v.attr == 'request' and role_of(v.value.id) == 'res':
+                    changed |= put(t.id, 'req')
+                elif isinstance(v, _a.Attribute) and isinstance(v.value, _a.Name) and v.attr == 'sock' and role_of(v.value.id) == 'req':
+                    changed |= put(t.id, 'sock')
+                elif isinstance(v, _a.Attribute) and v.attr == 'sock' and isinstance(v.value, _a.Attribute) and v.value.attr == 'request' \
+                        and isinstance(v.value.value, _a.Name) and role_of(v.value.value.id) == 'res':
+                    changed |= put(t.id, 'sock')
+                elif isinstance(v, _a.Attribute) and isinstance(v.value, _a.Name) and v.attr == 'headers' and role_of(v.value.id) == 'res':
+                    changed |= put(t.id, 'headers')
+                elif isinstance(v, _a.Attribute) and isinstance(v.value, _a.Name) and v.attr == 'response' and role_of(v.value.id) == 'req':
+                    changed |= put(t.id, 'res')
+                elif vs.startswith('self._buffers[') or (isinstance(v, _a.Call) and src(v.func).split('.')[-1] == 'HttpParser'):
+                    changed |= put(t.id, 'parser')
+                elif vs.replace('"', "'") == "kwargs['fevent']":
+                    changed |= put(t.id, 'fevent')
+                elif isinstance(v, _a.Subscript) and vs.endswith('.args[0]') and isinstance(n._parent, _a.If) and 'response' in src(n._parent.test):
+                    changed |= put(t.id, 'res')
+            for t in n.targets:
+                if isinstance(t, _a.Tuple) and len(t.elts) == 2 and all(isinstance(x, _a.Name) for x in t.elts):
+                    a, b = t.elts[0].id, t.elts[1].id
+                    if vs.startswith('self._clients[') or role_of(a) == 'req' or role_of(b) == 'res':
+                        changed |= put(a, 'req')
+                        changed |= put(b, 'res')
+        if not changed:
+            break
+    return m
+
+
+def http_func(repo, qual):
+    """A method of circuits/web/http.py in its canonical role view (see http_roles)."""
+    f = repo.func(WEB_HTTP, qual)
+    return renamed(f, http_roles(f)) if f is not None else None
+
+
+def snapshot_view(f):
+    """A view of *f* in which a local that is bound once by `v = self.<attr>` is analysed as `self.<attr>` wherever nothing that can move the
+    attribute lies between the binding and a use: no store to an attribute of that name (or its `_`-prefixed / unprefixed property twin), and no
+    call of a method of the same class whose body has such a store.  A local for which a mover may intervene keeps its name: it may be a stale
+    snapshot, and the rules then see the function as written.  (Whether another thread may write in between is a separate obligation of the
+    rules that care: they require the lock around the whole region.)"""
+    import ast as _a
+    from sa import normalize
+    from sa import pat, query as Q
+    from sa.model import FuncInfo, set_parents, src
+    m, _b = normalize.aliases(f.node)
+    cand = {v: e for v, e in m.items() if isinstance(e, _a.Attribute) and isinstance(e.value, _a.Name) and e.value.id == 'self'}
+    if not cand:
+        return f
+    g = f.cfg()
+
+    def twins(a):
+        return {a, '_' + a, a.lstrip('_')}
+
+    def method_moves(name, attrs, depth=0):
+        mm = f.cls.lookup(name) if f.cls is not None else None
+        if mm is None:
+            return False
+        for w in _a.walk(mm.node):
+            if isinstance(w, _a.Attribute) and isinstance(w.ctx, (_a.Store, _a.Del)) and w.attr in attrs:
+                return True
+        if depth < 1:
+            for c in _a.walk(mm.node):
+                if isinstance(c, _a.Call) and isinstance(c.func, _a.Attribute) and isinstance(c.func.value, _a.Name) and c.func.value.id == 'self' \
+                        and c.func.attr != name and method_moves(c.func.attr, attrs, depth + 1):
+                    return True
+        return False
+    ok = set()
+    for v, e in cand.items():
+        attrs = twins(e.attr)
+        bind = [n for n in g.nodes if n.kind == 'stmt' and isinstance(n.ast, _a.Assign) and len(n.ast.targets) == 1 and isinstance(n.ast.targets[0], _a.Name)
+                and n.ast.targets[0].id == v]
+        if len(bind) != 1:
+            continue
+        movers = []
+        for n in g.nodes:
+            if n.ast is None or n.kind not in ('stmt', 'test', 'with', 'for'):
+                continue
+            a = n.ast if n.kind == 'stmt' or n.kind == 'test' else (n.ast.context_expr if n.kind == 'with' else n.ast.iter)
+            hit = any(isinstance(w, _a.Attribute) and isinstance(w.ctx, (_a.Store, _a.Del)) and w.attr in attrs for w in _a.walk(n.ast)) if n.kind == 'stmt' else False
+            for c in _a.walk(a):
+                if isinstance(c, _a.Call) and isinstance(c.func, _a.Attribute) and isinstance(c.func.value, _a.Name) and c.func.value.id == 'self' \
+                        and method_moves(c.func.attr, attrs):
+                    hit = True
+            if hit:
+                movers.append(n)
+        seen, _ = Q.search([bind[0]])
+        stale = False
+        for mv in movers:
+            if mv in seen or mv is bind[0]:
+                after, _ = Q.search([mv])
+                if any(x is not mv and x.ast is not None and v in Q.names_used(x.ast if x.kind not in ('with', 'for') else (x.ast.context_expr if x.kind == 'with' else x.ast.iter))
+                       for x in after):
+                    stale = True
+        if not stale:
+            ok.add(v)
+    if not ok:
+        return f
+    new = normalize.apply(f.node, None, ok)
+    if new is None:
+        return f
+    set_parents(new)
+    new._parent = getattr(f.node, '_parent', None)
+    return FuncInfo(f.module, new, f.cls, f.parent)
